@@ -28,6 +28,13 @@ type Ctx struct {
 	trusted     map[string]bool // assumed contracts / modelled externals used
 	specDefined map[string]*specInst
 	typeIDs     map[string]int
+	sideFact    func(term string, t types.Type, alloc string) // receives typing facts of ground heap reads in specifications
+	sideSeen    map[string]bool
+	assuming    string    // reach condition while a callee postcondition is being assumed (else "")
+	presRels    []presRel // assumed "preserved(heap)" relations between heap versions (for light-query instances)
+	entryTyped  map[string]bool
+	etypeSorts  map[string]bool // element sorts shared by slices of different element types in this function
+	qfAlt       map[string]string // define-fun with quantified body -> declare-fun (used by light queries)
 	errConsts   map[string]string
 	axioms      []string // global axioms (spec function axioms etc.)
 	heapSortsM  map[string]string
@@ -42,6 +49,9 @@ type specInst struct {
 	res   types.Type
 	recAxiom string // full definitional axiom of a recursive spec function (used only by confirmation queries)
 }
+
+// presRel: cur[r] == old[r] for r <= alloc; with except != "" element-wise: cur[r][j] == old[r][j] unless except(r!, j!)
+type presRel struct{ cur, old, alloc, reach, except string }
 
 func newCtx(prog *Program, cs *ContractSet, pkg *types.Package, fmode string) *Ctx {
 	return &Ctx{prog: prog, cs: cs, pkg: pkg, fmode: fmode,
@@ -344,7 +354,18 @@ func (c *Ctx) rangeFact(term string, t types.Type) string {
 	case *types.Pointer, *types.Map, *types.Chan, *types.Signature:
 		return fmt.Sprintf("(>= %s 0)", term)
 	case *types.Slice:
-		return fmt.Sprintf("(and (>= (s-ref %[1]s) 0) (>= (s-off %[1]s) 0) (>= (s-len %[1]s) 0) (<= (s-len %[1]s) (s-cap %[1]s)) (<= (s-cap %[1]s) 140737488355328) (=> (= (s-ref %[1]s) 0) (= (s-cap %[1]s) 0)))", term)
+		// arr.etype: the element type of a backing array; slices of different element types never share
+		// one (unsafe casts are outside the model)
+		et := u.Elem()
+		if b, ok := et.(*types.Basic); ok {
+			et = types.Typ[b.Kind()]
+		}
+		if !c.etypeSorts[c.sortOf(et)] {
+			// only one element type of this sort occurs in the function: no aliasing question arises
+			return fmt.Sprintf("(and (>= (s-ref %[1]s) 0) (>= (s-off %[1]s) 0) (>= (s-len %[1]s) 0) (<= (s-len %[1]s) (s-cap %[1]s)) (<= (s-cap %[1]s) 140737488355328) (=> (= (s-ref %[1]s) 0) (= (s-cap %[1]s) 0)))", term)
+		}
+		c.declareFun("arr.etype", []string{"Int"}, "Int")
+		return fmt.Sprintf("(and (>= (s-ref %[1]s) 0) (>= (s-off %[1]s) 0) (>= (s-len %[1]s) 0) (<= (s-len %[1]s) (s-cap %[1]s)) (<= (s-cap %[1]s) 140737488355328) (=> (= (s-ref %[1]s) 0) (= (s-cap %[1]s) 0)) (=> (not (= (s-ref %[1]s) 0)) (= (arr.etype (s-ref %[1]s)) %[2]d)))", term, c.typeID(et))
 	case *types.Interface:
 		return fmt.Sprintf("(and (>= (if-tag %[1]s) 0) (=> (= (if-tag %[1]s) 0) (= (if-val %[1]s) 0)))", term)
 	case *types.Struct:
@@ -400,6 +421,9 @@ func (c *Ctx) preamble() string { return c.preambleOpt(true) }
 // preambleQF: declarations plus the quantifier-free axioms only.
 func (c *Ctx) preambleQF() string {
 	s := c.preambleOpt(false)
+	for def, alt := range c.qfAlt {
+		s = strings.Replace(s, def, alt, 1)
+	}
 	var sb strings.Builder
 	sb.WriteString(s)
 	for _, a := range c.axioms {
@@ -419,7 +443,7 @@ func (c *Ctx) preambleOpt(withAxioms bool) string {
 		sb.WriteString("(define-sort F32 () " + sortF32 + ")\n(define-sort F64 () " + sortF64 + ")\n")
 	}
 	sb.WriteString("(define-fun tdiv ((a Int) (b Int)) Int (ite (>= a 0) (ite (> b 0) (div a b) (- (div a (- b)))) (ite (> b 0) (- (div (- a) b)) (div (- a) (- b)))))\n")
-	sb.WriteString("(define-fun tmod ((a Int) (b Int)) Int (- a (* b (tdiv a b))))\n")
+	sb.WriteString("(define-fun tmod ((a Int) (b Int)) Int (ite (>= a 0) (mod a b) (- (mod (- a) b))))\n")
 	for _, d := range c.sortDecls {
 		sb.WriteString(d)
 		sb.WriteString("\n")
